@@ -134,6 +134,12 @@ example : logical E0 [107, 120] true zeroOracles sampleHistory
 example : ((final E0 true zeroOracles sampleHistory).frames.map (·.status) = [.deleted, .superseded, .active])
     ∧ mayDiffer (final E0 true zeroOracles sampleHistory) = [.wal, .lex, .memories, .toc, .footer, .header, .gap] := by decide
 
+/-- `C23_regions` says something for it: payload, time index and sketch track are outside `mayDiffer`, hence
+    byte-identical under the two valuations although the files as a whole differ -/
+example : Kind.payload ∉ mayDiffer (final E0 true zeroOracles sampleHistory) ∧ Kind.time ∉ mayDiffer (final E0 true zeroOracles sampleHistory)
+    ∧ Kind.sketch ∉ mayDiffer (final E0 true zeroOracles sampleHistory)
+    ∧ region X0 zeroOracles (final E0 true zeroOracles sampleHistory) .payload ≠ [] := by decide
+
 /-- `C23_bytes_partial` applies to non-trivial histories: an explicit card and commits, nothing indexed -/
 example : mayDiffer (final E0 true zeroOracles [.card 1 10 0 5, .card 1 11 0 6, .commit, .reopen, .search 1]) = [] := by decide
 
